@@ -359,11 +359,42 @@ class Gen:
             kind = self.rng.choice(['node', 'comp', 'ns', 'link', 'iface'])
         return [kind, n[0]], n
 
+    def same_node_other_scope_name(self, i):
+        """the name of another interface of the node that owns interface i, living in a different service: a legal
+        new name for i (names are unique per service) that makes two interfaces of one node share a name"""
+        g = self.g
+        svc = g.nb(i, 'connects', O.NS)
+        if len(svc) != 1:
+            return None
+        own = g.has_owner(svc[0])
+        if len(own) == 1 and g.cls(own[0]) == O.COMP:
+            own = g.has_owner(own[0])
+        if len(own) != 1:
+            return None
+        others = []
+        for s2 in g.nb(own[0], 'has', O.NS):
+            if s2 != svc[0]:
+                others += g.nb(s2, 'connects', O.CP)
+        for c in g.nb(own[0], 'has', O.COMP):
+            for s2 in g.nb(c, 'has', O.NS):
+                if s2 != svc[0]:
+                    others += g.nb(s2, 'connects', O.CP)
+        mine = [g.name(c) for c in g.nb(svc[0], 'connects', O.CP)]
+        names = [g.name(c) for c in others if g.name(c) and g.name(c) not in mine]
+        return self.rng.choice(names) if names else None
+
     def op_rename(self):
         e = self.some_elem()
         if not e:
             return None
         ref, n = e
+        if self.rng.random() < 0.3:
+            cands = self.node_ifaces()
+            self.rng.shuffle(cands)
+            for i in cands[:6]:
+                nm = self.same_node_other_scope_name(i)
+                if nm:
+                    return ['rename', ['iface', i], nm]
         if 'rename_dup' in self.avoid:
             new = self.fresh('r')
             if self.bad():
